@@ -3425,8 +3425,10 @@ yyreduce:
 		 */
 		if((yyval.a_expr)->expr_type == ASN_CONSTR_SEQUENCE_OF
 		|| (yyval.a_expr)->expr_type == ASN_CONSTR_SET_OF) {
-			assert(!TQ_FIRST(&((yyval.a_expr)->members))->constraints);
-			TQ_FIRST(&((yyval.a_expr)->members))->constraints = (yyvsp[(2) - (2)].a_constr);
+			if((yyvsp[(2) - (2)].a_constr)) {
+				assert(!TQ_FIRST(&((yyval.a_expr)->members))->constraints);
+				TQ_FIRST(&((yyval.a_expr)->members))->constraints = (yyvsp[(2) - (2)].a_constr);
+			}
 		} else {
 			if((yyval.a_expr)->constraints) {
 				assert(!(yyvsp[(2) - (2)].a_constr));
@@ -3449,8 +3451,10 @@ yyreduce:
 		 */
 		if((yyval.a_expr)->expr_type == ASN_CONSTR_SEQUENCE_OF
 		|| (yyval.a_expr)->expr_type == ASN_CONSTR_SET_OF) {
-			assert(!TQ_FIRST(&((yyval.a_expr)->members))->constraints);
-			TQ_FIRST(&((yyval.a_expr)->members))->constraints = (yyvsp[(2) - (2)].a_constr);
+			if((yyvsp[(2) - (2)].a_constr)) {
+				assert(!TQ_FIRST(&((yyval.a_expr)->members))->constraints);
+				TQ_FIRST(&((yyval.a_expr)->members))->constraints = (yyvsp[(2) - (2)].a_constr);
+			}
 		} else {
 			if((yyval.a_expr)->constraints) {
 				assert(!(yyvsp[(2) - (2)].a_constr));
@@ -3474,8 +3478,10 @@ yyreduce:
 		 */
 		if((yyval.a_expr)->expr_type == ASN_CONSTR_SEQUENCE_OF
 		|| (yyval.a_expr)->expr_type == ASN_CONSTR_SET_OF) {
-			assert(!TQ_FIRST(&((yyval.a_expr)->members))->constraints);
-			TQ_FIRST(&((yyval.a_expr)->members))->constraints = (yyvsp[(3) - (3)].a_constr);
+			if((yyvsp[(3) - (3)].a_constr)) {
+				assert(!TQ_FIRST(&((yyval.a_expr)->members))->constraints);
+				TQ_FIRST(&((yyval.a_expr)->members))->constraints = (yyvsp[(3) - (3)].a_constr);
+			}
 		} else {
 			if((yyval.a_expr)->constraints) {
 				assert(!(yyvsp[(2) - (3)].a_expr));
